@@ -250,6 +250,50 @@ def fake_iter_rule(ctx, prog):
                  'that is not may only size a buffer (flow into with_capacity), never a result or the cursor')
     bodies = [b for b in prog.bodies.values() if (b.rec.get('impl_self_adt') == CCI or b.name.startswith(CCI + '::<A, F>::'))
               and not b.rec.get('derived')]
+    def arms_of(t):
+        """(value, successor): '0' / 'nz' for a bool, the variant name for a match on an enum"""
+        if t.get('adt') and t.get('variants'):
+            return [(t['variants'].get(str(v), str(v)), tgt) for v, tgt in t['targets']] + [('*', t['otherwise'])]
+        return [('0' if v == '0' else str(v), tgt) for v, tgt in t['targets']] + [('nz', t['otherwise'])]
+
+    def flag_switches(b):
+        """switches of b that branch on a field of self other than block_iterator: (block, terminator, signature); the signature says
+        which field, through which calls (`PartialEq::eq` against a constant ..) and whether it is a bool test or a match"""
+        for i, bl in enumerate(b.blocks):
+            t = bl['term']
+            if t['k'] != 'switch' or t['discr']['k'] == 'const' or bl['cleanup']:
+                continue
+            src = origin_locals(b, t['discr']['pl']['l'], depth=5)
+            flds = set()
+            for x in src:
+                for _, kind, payload in local_defs(b, x):
+                    if kind == 'assign':
+                        for pl in operand_places(payload) + ([payload['pl']] if payload.get('rv') == 'ref' else []):
+                            flds |= {f for f in pl_fields(pl) if 'ConcreteColumnIterator::' in f and not f.endswith('::block_iterator')}
+            if len(flds) != 1:
+                continue
+            via = frozenset(re.sub(r'<[^<>]*>', '', c.fn or '') for c in b.calls if c.dest['l'] in src and not c.dest['p']
+                            and any(a['k'] != 'const' and a['pl']['l'] in src for a in c.args))
+            consts = frozenset(str(a.get('v')) for c in b.calls if c.dest['l'] in src for a in c.args if a['k'] == 'const')
+            yield i, t, (next(iter(flds)), via, 'match' if t.get('adt') else 'bool')
+
+    # the staleness flag is whatever field decides about a reload: in the methods that reload block_iterator, the branch on a field of
+    # self exactly one of whose arms leads to the reload; that arm's value means "stale" (`if self.is_fake_iter {..}`,
+    # `if self.state == Stale {..}`, `match self.state { Stale => .., Loaded => .. }`)
+    stale_arm = {}
+    for b0 in bodies:
+        b0 = prog.inlined(b0)
+        reloads0 = {bb for bb, st in b0.stmts() if st['s'] == 'assign' and st['lhs']['p']
+                    and any(f.endswith('ConcreteColumnIterator::block_iterator') for f in pl_fields(st['lhs']))}
+        if not reloads0:
+            continue
+        for i, t, sig in flag_switches(b0):
+            arms = [(v, o) for v, o in arms_of(t) if not b0.diverges(o)]
+            owns = [(v, o) for v, o in arms if any(b0.dominates(o, r) for r in reloads0)]
+            if len(owns) == 1 and len(arms) >= 2:
+                stale_arm[sig] = owns[0][0]
+    ctx.anchor(R6, 'ConcreteColumnIterator: the branch that decides about reloading block_iterator (staleness flag)', stale_arm)
+    ctx.extra['staleness_flag'] = [{'field': k[0], 'through': sorted(k[1]), 'kind': k[2], 'stale_when': v} for k, v in stale_arm.items()]
     n_reads = 0
     for b in bodies:
         if b.rec.get('impl_trait', '').endswith('Drop') or '::new' in b.name:
@@ -266,14 +310,9 @@ def fake_iter_rule(ctx, prog):
         reloads = {bb for bb, st in b.stmts() if st['s'] == 'assign' and st['lhs']['p']
                    and any(f.endswith('ConcreteColumnIterator::block_iterator') for f in pl_fields(st['lhs']))}
         not_fake = set()
-        for i, bl in enumerate(b.blocks):
-            t = bl['term']
-            if t['k'] != 'switch' or t['discr']['k'] == 'const':
-                continue
-            src = [st for st in bl['stmts'] if st['s'] == 'assign' and st['lhs']['l'] == t['discr']['pl']['l']]
-            if src and src[-1]['rv'].get('rv') == 'use' and src[-1]['rv']['op']['k'] != 'const' and \
-                    any(f.endswith('ConcreteColumnIterator::is_fake_iter') for f in pl_fields(src[-1]['rv']['op']['pl'])):
-                not_fake |= {tgt for v, tgt in t['targets'] if v == '0'}
+        for i, t, sig in flag_switches(b):
+            if sig in stale_arm:
+                not_fake |= {o for v, o in arms_of(t) if v != stale_arm[sig]}
         for c in b.calls:
             if not (c.args and c.args[0]['k'] != 'const' and c.args[0]['pl']['l'] in refs):
                 continue
